@@ -28,10 +28,11 @@ _SMILES_SINGLE_LETTER_ATOM = (
 
 def _push_pop_atom_branch(string, atom_to_bond):
     # Remember atoms before branch opening, to bind to correct atom
-    for _ in range(string.count("(")):
-        atom_to_bond.append(atom_to_bond[-1])
-    for _ in range(string.count(")")):
-        atom_to_bond.pop(-1)
+    for char in string:
+        if char == "(":
+            atom_to_bond.append(atom_to_bond[-1])
+        if char == ")":
+            atom_to_bond.pop(-1)
     return atom_to_bond
 
 
